@@ -29,6 +29,37 @@ def size_bytes(s):
     return math.ceil(Fraction(m.group(1)) * (CONV[m.group(2)] if m.group(2) else 1))
 
 
+def size_exact(s):
+    """the exact request a memory/storage string denotes: decimal value times the unit, as a Fraction (no rounding)"""
+    m = _SIZE.fullmatch(s)
+    assert m, s
+    return Fraction(m.group(1)) * (CONV[m.group(2)] if m.group(2) else 1)
+
+
+def just_above(b, unit='Gi'):
+    """a string denoting b bytes plus a fraction of a byte, written in `unit` with a long fractional part (e.g. 3.7500000001Gi)"""
+    f = CONV[unit]
+    q = Fraction(b, f)
+    den = q.denominator
+    digits = 0
+    while den % 10 == 0 or den % 2 == 0 or den % 5 == 0:
+        if den == 1:
+            break
+        q10 = q * 10 ** (digits + 1)
+        digits += 1
+        if q10.denominator == 1:
+            break
+        den = q10.denominator
+    if (q * 10 ** digits).denominator != 1:
+        return None
+    whole = q * 10 ** digits
+    ip, fp = divmod(int(whole), 10 ** digits)
+    frac = str(fp).rjust(digits, '0') if digits else ''
+    pad = max(0, 9 - len(frac)) + (len(f'{f}') - 9 if f > 10 ** 9 else 0)
+    s = f'{ip}.{frac}{"0" * pad}1{unit}'
+    return s if b < size_exact(s) < b + 1 else None
+
+
 def cpu_mcpu(s):
     m = _CPU.fullmatch(s)
     assert m, s
@@ -271,10 +302,11 @@ class C12(Prop):
         cloud = c['cloud']
         label = r.get('pool_label') or ''
         pre = d['preemptible'] if r.get('preemptible') is None else r['preemptible']
+        # the request is read from the submitted strings with the harness's own exact arithmetic (never through the repo's parser)
         if r.get('pvc_size') is not None:
-            storage = r['pvc_size'][0]          # the deprecated spelling of the same request
+            storage = size_exact(r['pvc_size'][1])          # the deprecated spelling of the same request
         else:
-            storage = size_bytes(d['storage']) if r.get('storage') is None else r['storage'][0]
+            storage = size_exact(d['storage'] if r.get('storage') is None else r['storage'][1])
         mt = r.get('machine_type')
         if mt:
             return dict(route='job-private', mt=mt, label=label, pre=pre, storage=storage)
@@ -291,7 +323,7 @@ class C12(Prop):
             if wt is not None and is_pow2_quarter(cores):
                 mem_bytes = Fraction(cores * self.mem_per_core[cloud][wt], 1000)
         else:
-            mem_bytes = mem[1]
+            mem_bytes = size_exact(mem[2]) if len(mem) > 2 else Fraction(mem[1])
         return dict(route='pool', cores=cores, mem=mem_bytes, wt=wt, label=label, pre=pre, storage=storage)
 
     def _show(self, c):
@@ -373,7 +405,7 @@ class C12(Prop):
             return f'unreadable answer {o!r}'
         name, cores, mem, sgib = m.group(1), int(m.group(2)), int(m.group(3)), int(m.group(4))
         if sgib * GIB < q['storage']:
-            return f'granted storage {sgib} GiB is less than the requested {q["storage"]} bytes (job {self._show(c)})'
+            return f'granted storage {sgib} GiB is less than the requested {float(q["storage"]):.3f} bytes (job {self._show(c)})'
         if sgib * GIB > self.max_storage[cloud]:
             return f'granted storage {sgib} GiB exceeds the largest disk of cloud {cloud}'
         if q['route'] == 'job-private':
@@ -393,7 +425,7 @@ class C12(Prop):
         if cores < q['cores']:
             return f'granted {cores} mcpu < requested {q["cores"]} mcpu'
         if mem < q['mem']:
-            return f'granted memory {mem} bytes < requested {q["mem"]} bytes (pool {name}, {cores} mcpu)'
+            return f'granted memory {mem} bytes < requested {float(q["mem"]):.3f} bytes (job {self._show(c)}, pool {name}, {cores} mcpu)'
         if cores > p['cores'] * 1000:
             return f'granted {cores} mcpu does not fit a worker of pool {name} ({p["cores"]} cores)'
         if self._pool_ok(p) and mem > self._worker_memory(p):
@@ -498,6 +530,18 @@ class C12(Prop):
                     if rng.random() < 0.1:
                         b = rng.choice([0, 1, rng.randint(0, 2 ** 36), 2 ** 50])
                     req['memory'] = ['bytes', b, self._size_string(rng, b)]
+                    if rng.random() < 0.3:
+                        # not a whole number of bytes, a fraction of a byte above a per-core memory step (3.7500000001Gi, 6.5000000001Gi ...)
+                        kk = 250 * 2 ** rng.randrange(0, 8) if rng.random() < 0.7 else k
+                        b0 = kk * pc // 1000
+                        st = just_above(b0, rng.choice(['Gi', 'Gi', 'Mi', 'G']))
+                        if st is not None:
+                            req['memory'] = ['bytes', b0 + 1, st]
+            if 'storage' in req and rng.random() < 0.15:
+                b0 = rng.choice([10 * GIB, 10 * GIB, rng.randint(1, 400) * GIB, 375 * GIB])     # a fraction of a byte above the 10 GiB floor / a GiB step
+                st = just_above(b0, rng.choice(['Gi', 'Gi', 'Mi', 'Ti']))
+                if st is not None:
+                    req['storage'] = [b0 + 1, st]
             spelling = {}
             if rng.random() < 0.3:
                 # the deprecated storage key, alone (no / empty resources) or next to modern keys, rarely next to resources.storage
@@ -542,6 +586,10 @@ class C12(Prop):
                 nontrivial = True
         elif q['route'] == 'job-private' and (o.startswith('ok') or o == 'reject unsatisfiable'):
             nontrivial = True
+        for key in ('memory', 'storage', 'pvc_size'):
+            v = c['req'].get(key)
+            if v and v[0] != 'sym' and isinstance(v[-1], str) and size_exact(v[-1]).denominator != 1:
+                tags.append(f'{key}-not-a-whole-number-of-bytes')
         if c['req'].get('pvc_size') is not None:
             tags.append('storage-as-pvc_size:' + ((c.get('spelling') or {}).get('resources_key') or 'with-resources'))
         if (c.get('spelling') or {}).get('process') == 'deprecated':
